@@ -127,12 +127,6 @@ theorem swap_threshold_percent_exact (biased : Bool) (st : Int) (mt : Option Int
   rw [Int.tdiv_eq_ediv_of_nonneg hnn]
   omega
 
-/-- The swap / memory ratio used for the bias is `SwapTotal / MemTotal` of the full 64-bit totals. -/
-theorem swap_ratio_exact (thr : ThresholdArg) (biased : Bool) (st mt : Int) (hmt : 0 < mt) :
-    swapRatio Rat Variant.fixed { threshold := thr, biased := biased, swapTotal := some st, memTotal := some mt }
-      = (st : Rat) / (mt : Rat) := by
-  simp [swapRatio, memTotalSeen, swapTotalSeen, Variant.fixed, hmt, Num.div, Num.ofInt]
-
 /-- The biased key is the swap usage minus the protected share `⌊ratio · protection⌋`, not below 0. -/
 theorem swap_excess_exact (ratio : Rat) (s : RStat) (hr : 0 ≤ ratio) (hp : 0 ≤ s.prot) :
     swapExcess ratio s = Max.max 0 (s.swap - (ratio * (s.prot : Rat)).floor) := by
@@ -191,11 +185,6 @@ theorem pgscan_first_choice (sibs : List (Stat D F)) (c : Entry Int) (rest : Lis
       (by simp only [pgScanEntries, List.mem_map, List.mem_filter, decide_eq_true_eq]
           exact ⟨s, ⟨hs, by simpa [hr] using hpos⟩, rfl⟩)
     simpa [ltInt, hr, hrc] using this
-
-/-- the increase is the difference of the two samples; a cgroup with one sample has none -/
-theorem pgscan_rate_is_increase (prev : Option Int) (now : Int) :
-    pgScanRate prev now = match prev with | some p => some (now - p) | none => none := by
-  cases prev <;> rfl
 
 end
 
@@ -260,16 +249,6 @@ theorem iocost_first_choice (sibs : List RStat) (c : Entry Rat) (rest : List (En
   refine ⟨this.1, fun he => ?_⟩
   simpa [Num.lt, Rat.not_lt] using this.2 he
 
-/-- the rate is the increase of the cumulative cost between the two samples (0 for a first sample), and the
-    cumulative cost of one device line is the dot product of its six counters with the coefficients -/
-theorem iocost_rate_is_increase (prev now : Rat) (l : IoLine Rat) :
-    ioCostRate (some prev) now = now - prev ∧ ioCostRate none now = 0 ∧
-    ioCostCumulative [l] = l.rios * l.readIops + l.rbytes * l.readBw + l.wios * l.writeIops + l.wbytes * l.writeBw
-      + l.dios * l.trimIops + l.dbytes * l.trimBw := by
-  refine ⟨rfl, rfl, ?_⟩
-  simp only [ioCostCumulative, List.foldl, Num.add, Num.mul, Num.ofInt, Num.zero]
-  grind
-
 /-! ## `kill_by_memory_size_or_growth` (exact arithmetic) -/
 
 /-- the siblings' total usage -/
@@ -313,10 +292,6 @@ theorem growth_zero_average (p : GrowthParams Rat) (sibs : List RStat) (s : RSta
   have hz : growthRatio s = (0 : Rat) := by simp [growthRatio, memoryGrowth, havg, Narrow.narrow, Num.zero, Num.ofInt]
   refine ⟨hz, ?_⟩
   simp only [growthEligible, Bool.and_eq_true, rat_ge_iff, decide_eq_true_eq, hz]
-
-/-- `min_growth_ratio` is the decimal number written in the configuration (`1.25` is 5/4, not 1). -/
-theorem growth_ratio_parsed_exactly (m e : Nat) :
-    (parseMinGrowthRatio Variant.fixed m e : Rat) = (m : Rat) / ((10 ^ e : Nat) : Rat) := rfl
 
 /-- what the three theorems below share: the first choice `sc`, and for every sibling that it is not more
     preferred and, when equally preferred, not greater in the rank tuple -/
